@@ -527,8 +527,14 @@ UPGRADER:
 				}
 				start = i + 1
 				p.nextState(stateBodyChunkSizeLF)
+			case '\n':
+				return ErrCRExpected
 			default:
 				if !isHex(c) && p.chunkSize < 0 {
+					// only a chunk extension may follow the size.
+					if c != ';' && c != '\t' {
+						return ErrInvalidChunkSize
+					}
 					chunkSize, err := parseAndValidateChunkSize(string(data[start:i]))
 					if err != nil {
 						return err
